@@ -18,10 +18,10 @@ class C08(Spec):
     streams = [
         Stream("images", "crash", c01.REFDB, "run_crash_case",
                c01.images([["rollback", "open"], ["rollback", "open", "ddl"], ["ckpt", "ddl"], ["rollback", "open", "vacuum"]], 50, 300, nested="n1", big=1),
-               canon=CG.model_canon, canon_case=CG.make_canon(check_flags=True), rust_shards=16, shard=3, reference=True),
-        Stream("simple", "crash", [], None, c01.simple(40, 400), oracle=CG.simple_oracle, rust_shards=16),
+               canon=CG.model_canon, canon_case=CG.make_canon(check_flags=True), rust_shards=16, shard=3, reference=True, measure=CG.measure),
+        Stream("simple", "crash", [], None, c01.simple(40, 400), oracle=CG.simple_oracle, rust_shards=16, measure=CG.measure),
         Stream("protocol", "crash", c01.CRASH, "run_protocol_case", c01.protocol(40, 500),
-               canon=CG.protocol_canon_model, canon_case=CG.protocol_canon_case, rust_shards=16, shard=20),
+               canon=CG.protocol_canon_model, canon_case=CG.protocol_canon_case, rust_shards=16, shard=20, measure=CG.measure),
     ]
 
     def known_class(self, k, case):
